@@ -28,12 +28,12 @@ MANIFEST = dict(
          "positions and flags: forward code in byte mode with or without the scan mode (vm_sound; matches_sound: a true `matches` verdict implies a matching substring), "
          "forward code with one- or two-byte (wide) characters (vm_sound_forward), and backward code - proved to be the forward code of the mirrored expression - run with "
          "RE_FLAGS_BACKWARDS, byte or wide (vm_sound_backward: L <= start and the expression matches buf[start-L, start)). "
-         "NOT proved: runs entering the code at an atom's instruction (the forward+backward composition of _yr_scan_verify_re_match; at specification level: decompose), the "
+         "the atoms extracted for the string (Model/ReAtoms.lean: walk with the sliding window, trim, OR/AND tree, choice - for EVERY quality function) cover every match: each match contains an occurrence of a chosen masked atom, or nothing was chosen and the zero-length atom applies (reAtoms_cover_partial: byte mode, no nocase, before wildcard expansion, without the position statement). NOT proved: runs entering the code at an atom's instruction (the forward+backward composition of _yr_scan_verify_re_match; at specification level: decompose), the "
          "fast matcher, VM completeness (epsilon-loops, fiber limits), atom extraction, Aho-Corasick. That gap is covered by SAMPLING on "
          "every run: generated regexes (<= 12 nodes, all-greedy / all-lazy, anchors, word boundaries, classes, /i /s, nocase ascii wide fullword, atoms forced into groups, "
          "branches and repeats) x buffers (< 1024 bytes) through the real engine vs. the compiled Lean specification (complete match lists, `matches` verdicts through literal "
          "and external operands), the parser AST tie (incl. class bitmaps and greedy flags), the real bytecode through the C VM and the Lean VM model, the whole-expression code "
-         "run exhaustively vs. the specification, and the Lean emit model vs. the bytes yr_re_ast_emit_code writes.",
+         "run exhaustively vs. the specification, the Lean emit model vs. the bytes yr_re_ast_emit_code writes, and the Lean model of atoms.c (heuristic quality included) vs. the atoms the compiler inserts into the automaton (hook H3) and the code positions of their entries.",
     design_ref="DESIGN.md §4 D6/D7, §5 C03",
     note=core.TB + "The regex printer and the oracle comparator (vf/checks/re_common.py) are trusted (the printer is inside the AST tie). Spec decisions: which admissible "
                    "length is reported is not constrained beyond membership; with `fullword` an offset must be reported when every admissible length is delimited and must not when "
